@@ -110,7 +110,9 @@ func (s *Server) HandleIDPInitiated(w http.ResponseWriter, r *http.Request) {
 		}
 	}
 
-	s.idpConfigMu.RLock()
-	defer s.idpConfigMu.RUnlock()
+	// Do not hold idpConfigMu here: ServeIDPInitiated looks the service
+	// provider up through GetServiceProvider, which takes the read lock itself.
+	// Taking it recursively deadlocks against a concurrent service update,
+	// because a waiting writer blocks new readers.
 	s.IDP.ServeIDPInitiated(w, r, shortcut.ServiceProviderID, relayState)
 }
